@@ -23,10 +23,10 @@ def run(ctx):
     def post(P_, J, runs):
         ctx.cov["relational"] = common.relational(ctx, P_, J, runs, clause="schedule-dependent")
 
-    J, runs, cov = common.sem_check(ctx, P, variants, level="model_checking", post=post, write=False)
+    J, runs, cov = common.sem_check(ctx, P, variants, level="exploration", post=post, write=False)
     cov["schedules_per_program"] = k
     cov["relational_comparisons"] = ctx.cov.get("relational", 0)
-    ctx.write_evidence("model_checking", cov, assumptions=[
+    ctx.write_evidence("exploration", cov, assumptions=[
         "schedule control: MessageFIFO subclass returned from StackBasedEngine.init_message_stack() permutes each "
         "batch of sibling 'e' messages (no source hook)"])
 
